@@ -226,6 +226,9 @@ var responseSpecs = []layerSpec{
 		Want: map[string][]string{
 			"AuthType": {"d0[7:0]"}, "Sequence": {"{d4[7:0],d3[7:0],d2[7:0],d1[7:0]}"}, "ID": {"{d8[7:0],d7[7:0],d6[7:0],d5[7:0]}"},
 			"AuthCode": {"copy(d[9:25])", "nil"}, "Length": {"d25[7:0]", "d9[7:0]"}, "BaseLayer.Contents": {"d[0:10]", "d[0:26]"},
+			// the payload is exactly what the length byte announces — a datagram that is shorter is
+			// rejected (with C05's bounds proof), not clamped
+			"BaseLayer.Payload": {"d[10:+d9[7:0]]", "d[26:+d25[7:0]]"},
 		}},
 	{Pkg: "pkg/ipmi", Type: "V2Session", Method: "DecodeFromBytes", Ref: "IPMI v2.0 §13.6 (RMCP+ format)",
 		Want: map[string][]string{
